@@ -381,6 +381,87 @@ def install(only=None):
                     return "%s.scale changed the shape %r -> %r" % (_n, data.shape, result.shape)
             wrap(cls, "scale", "C13", "%s.scale-pure-double-elementwise" % cls_name, pre=pre_scale, post=post_scale)
 
+    # ---- C08 / C07: every segment TdmsWriter emits parses with the independent structural parser
+    if want("C08") or want("C07"):
+        from nptdms import writer as W
+
+        def pre_seg_write(self, file):
+            if not isinstance(file, io.BytesIO):
+                raise RuntimeError("skip: only in-memory streams can be read back")
+            return file.tell()
+
+        WIDTH = {c: w for c, (_, w, _) in L.TYPES.items() if w is not None}
+
+        def parse_file(data):
+            """independent structural parse of written bytes (little-endian, as TdmsWriter writes): the same checks
+            as bounded.checks_writer.parse_file, repeated here because importing the bounded package would change
+            the logging / warning configuration the repository's tests observe"""
+            segs = []
+            pos = 0
+            while pos < len(data):
+                assert len(data) - pos >= 28, "truncated lead-in"
+                tag = data[pos:pos + 4]
+                toc, ver, no, ro = struct.unpack("<llQQ", data[pos + 4:pos + 28])
+                md = data[pos + 28:pos + 28 + ro]
+                assert len(md) == ro, "metadata shorter than raw data offset"
+                p = 0
+                (count,) = struct.unpack("<L", md[p:p + 4]); p += 4
+                objs = []
+                implied = 0
+                for _ in range(count):
+                    (ln,) = struct.unpack("<L", md[p:p + 4]); p += 4
+                    path = md[p:p + ln].decode("utf-8"); p += ln
+                    (ixlen,) = struct.unpack("<L", md[p:p + 4])
+                    index = None
+                    if ixlen == 0xFFFFFFFF:
+                        p += 4
+                    else:
+                        tcode, dim, nv = struct.unpack("<LLQ", md[p + 4:p + 20])
+                        size, total = 20, None
+                        if tcode == 0x20:
+                            (total,) = struct.unpack("<Q", md[p + 20:p + 28])
+                            size = 28
+                        assert ixlen == size, "raw index length field %d but the structure is %d bytes (%s)" % (ixlen, size, path)
+                        assert dim == 1, "dimension %d" % dim
+                        p += size
+                        index = (tcode, nv, total)
+                        implied += total if tcode == 0x20 else nv * WIDTH[tcode]
+                    (nprops,) = struct.unpack("<L", md[p:p + 4]); p += 4
+                    for _ in range(nprops):
+                        (ln,) = struct.unpack("<L", md[p:p + 4]); p += 4 + ln
+                        (pt,) = struct.unpack("<L", md[p:p + 4]); p += 4
+                        if pt == 0x20:
+                            (ln,) = struct.unpack("<L", md[p:p + 4]); p += 4 + ln
+                        else:
+                            p += WIDTH[pt]
+                    objs.append((path, index))
+                assert p == ro, "metadata parses to %d bytes, raw data offset says %d" % (p, ro)
+                assert no - ro == implied, "raw data length %d but types and counts imply %d" % (no - ro, implied)
+                segs.append(dict(tag=tag, toc=toc, version=ver, next=no, raw=ro, objects=objs))
+                pos = pos + 28 + (no if tag == b"TDSm" else ro)
+            assert pos == len(data), "segments do not tile the bytes written"
+            return segs
+
+        def post_seg_write(pos, result, self, file):
+            data = file.getvalue()[pos:file.tell()]
+            try:
+                segs = parse_file(data)
+            except (AssertionError, KeyError, struct.error) as e:
+                return "segment written by TdmsWriter is not self-consistent: %r" % (e,)
+            if len(segs) != 1:
+                return "one TdmsSegment.write produced %d segments" % len(segs)
+            sg = segs[0]
+            paths = [o[0] for o in sg["objects"]]
+            if len(set(paths)) != len(paths):
+                return "an object is listed twice in one segment: %r" % paths
+            for i, pth in enumerate(paths):
+                if pth.count("'") >= 4 and pth != "/":
+                    grp = pth[:pth.index("'/'") + 1] if "'/'" in pth else None
+                    if grp in paths and paths.index(grp) > i:
+                        return "channel %s is listed before its group" % pth
+        wrap(W.TdmsSegment, "write", "C08", "written-segment-parses-and-is-self-consistent", pre=pre_seg_write,
+             post=post_seg_write)
+
     # ---- C20: close
     if want("C20"):
         def pre_close(self):
